@@ -63,6 +63,7 @@ impl Pool {
             let choice = rng.weighted(&[
                 3, 2, 2, 3, 2, 2, 2, 2, // open fragments
                 3, 2, 2 + cfg.pattern_weight, 2 + cfg.pattern_weight, 2, 2, 2, 2, 2, 2, // closed
+                2, 2, 2, 1, // open fragments with a quantifier of their own inside
             ]);
             let f = match choice {
                 0 => F::un("AX", h()),
@@ -91,9 +92,16 @@ impl Pool {
                     Some(l) => F::hyb("!", &z, Some(l), F::un("AX", F::var(&z))),
                     None => F::un("EG", p(rng, cfg)),
                 },
-                _ => match &lab {
+                17 => match &lab {
                     Some(l) => F::wild(l),
                     None => F::bin("^", p(rng, cfg), p(rng, cfg)),
+                },
+                18 => F::hyb("3", &z, None, F::hyb("@", &z, None, F::un("AX", h()))),
+                19 => F::hyb("!", &z, None, F::un("EX", F::bin("&", F::var(&z), h()))),
+                20 => F::bin("&", h(), F::hyb("3", &z, None, F::hyb("@", &z, None, F::un("EF", h())))),
+                _ => match &lab {
+                    Some(l) => F::hyb("V", &z, Some(l), F::hyb("@", &z, None, F::bin("=>", F::un("EF", h()), F::un("EX", F::var(&z))))),
+                    None => F::hyb("!", &z, None, F::bin("|", F::un("AX", F::var(&z)), F::un("AX", h()))),
                 },
             };
             frags.push(f);
@@ -126,7 +134,19 @@ impl Pool {
                 continue;
             }
             if !scope.is_empty() {
-                return Pool::instantiate(f, rng.pick(scope).as_str());
+                // rename the fragment's own bound variables away from the scope, then fill the hole
+                let mut g = f.clone();
+                let mut names = std::collections::BTreeSet::new();
+                g.all_var_names(&mut names);
+                let mut taken: Vec<String> = scope.to_vec();
+                for nm in names {
+                    if nm != HOLE && scope.contains(&nm) {
+                        let fresh = fresh_name(rng, &taken);
+                        taken.push(fresh.clone());
+                        g = g.rename_var(&nm, &fresh);
+                    }
+                }
+                return Pool::instantiate(&g, rng.pick(scope).as_str());
             }
         }
         F::Const(true)
